@@ -38,6 +38,8 @@ PROPS = {
     "C13": ("storewalk", 16, 600, 3600),
     "C05": ("crashwalk", 16, 600, 3600),
     "C17": ("crashwalk", 16, 600, 3600),
+    "C15": ("schedwalk", 16, 600, 3600),
+    "C11": ("schedwalk", 16, 600, 3600),
     "C06": ("netwalk", 16, 900, 3600),
     "C07": ("netwalk", 16, 600, 3600),
     "C19": ("domwalk", 16, 300, 7200),
@@ -293,6 +295,51 @@ def mutant_overlay(mutant_path):
     return make_overlay(extra_replace=repl, tag=".mutant")
 
 
+def race_pass(prop, tier):
+    """Detector pass (not an enumeration): the netwalk rig built with -race, free-running, with
+    API readers hammering shared state during peer churn. Every race report becomes a violation
+    whose kind names the two conflicting application functions."""
+    binary = build("netwalk", race=True)
+    env = dict(os.environ)
+    env.update({"VERIF_RACE": "1", "GORACE": "halt_on_error=0", "VERIF_REPO": REPO})
+    p = subprocess.run(["timeout", "600", binary, "-test.run", "^TestRace$", "-test.count", "1", "-test.timeout", "0"],
+                       env=env, cwd=BUILD, stdout=subprocess.PIPE, stderr=subprocess.STDOUT, text=True)
+    out = p.stdout
+    blocks = [b for b in out.split("==================") if "DATA RACE" in b]
+    viol, counts = [], {}
+    mod = "github.com/bitcoin-sv/block-headers-service/"
+    for b in blocks:
+        parts = re.split(r"\nPrevious ", b, maxsplit=1)
+        if len(parts) == 2:
+            parts[1] = re.split(r"\nGoroutine ", parts[1], maxsplit=1)[0]
+        fns = []
+        for st in parts[:2]:
+            fn = "?"
+            for line in st.splitlines():
+                line = line.strip()
+                if line.startswith(mod) and "/verifh/" not in line:
+                    fn = line[len(mod):]
+                    if fn.endswith("()"):
+                        fn = fn[:-2]
+                    break
+            fns.append(fn)
+        fns = (fns + ["?", "?"])[:2]
+        kind = "race/%s~%s" % tuple(sorted(fns))
+        if any("service.(*NetworkService)" in st for st in parts[:2]):
+            # one defect, many access pairs: the network service reads the peers map and the peers
+            # in it from HTTP goroutines while the P2P side creates, registers and removes them
+            kind = "race/peers_map(SyncManager~NetworkService)"
+        counts[kind] = counts.get(kind, 0) + 1
+        if counts[kind] == 1:
+            viol.append({"property": prop, "kind": kind, "what": "the race detector reported a data race between %s and %s (free-running pass)" % tuple((fns + ["?", "?"])[:2]),
+                         "replay": {"engine": "race-pass", "cmd": "VERIF_RACE=1 build/netwalk.race.test -test.run ^TestRace$"}, "observed": b[:3000]})
+    ok = ("PASS" in out or "FAIL" in out) and p.returncode in (0, 1, 66)
+    rep = {"violations": viol, "violation_counts": counts, "exhaustive": True, "executions": 6,
+           "extra": {"race_pass": {"rounds": 6, "reports": len(blocks), "distinct": len(counts), "note": "detector pass: samples schedules, does not enumerate them"}}}
+    errs = [] if ok else ["race pass did not run to completion: exit %d: %s" % (p.returncode, out[-1500:])]
+    return rep, errs
+
+
 def check(prop, tier, replay=None):
     t0 = time.time()
     engine, nshards, dq, dt = PROPS[prop]
@@ -305,6 +352,10 @@ def check(prop, tier, replay=None):
     else:
         binary = build(engine)
     reports, errors = run_shards(binary, prop, tier, nshards, deadline, seed, replay=replay)
+    if prop == "C15" and not replay:
+        r, e = race_pass(prop, tier)
+        reports.append(r)
+        errors += e
     m = merge(reports)
     return finish(prop, tier, seed, m, errors, t0, level=LEVELS.get(prop, LEVEL), replaying=bool(replay))
 
@@ -318,6 +369,7 @@ def main(argv):
         ov = make_overlay()
         for e in sorted(set(v[0] for v in PROPS.values())):
             build(e, ov)
+        build("netwalk", ov, race=True)
         return 0
     if cmd == "build":
         build(argv[2])
